@@ -88,12 +88,23 @@ theorem Big.neg_eq_ref (a : V4) (w : Nat) (s : Bool) (ha : a.wf) (hwa : a.width 
     have hm0 : a.mask = 0 := by omega
     rw [hm0]
 
-/-- The U64 arm of unary minus agrees with the BigUint arm except at width 64, operand 0 (where
-    `ret.payload += 1` overflows). -/
-theorem U64.neg_eq_big (a : V4) (w : Nat) (h64 : w ≤ 64) (ha : a.wf) (hwa : a.width = w)
-    (hok : w < 64 ∨ a.payload ≠ 0 ∨ a.mask ≠ 0) : U64.neg a w = some (Big.neg a w) := by
+/-- The U64 arm of unary minus (`wrapping_add`) agrees with the BigUint arm for every `w ≤ 64`,
+    width 64 / operand 0 included. -/
+theorem U64.neg_eq_big (a : V4) (w : Nat) (h64 : w ≤ 64) (ha : a.wf) (hwa : a.width = w) :
+    U64.neg a w = Big.neg a w := by
   have hp : a.payload < 2 ^ w := by rw [← hwa]; exact ha.1
   unfold U64.neg Big.neg
+  by_cases hm : a.mask ≠ 0
+  · rw [if_pos hm, if_pos hm, U64.newX_eq_big h64]
+  · rw [if_neg hm, if_neg hm]
+    simp only [U64.genMask_eq h64, Big.genMask, U64.wadd, Nat.and_two_pow_sub_one_eq_mod, mod64_mod h64]
+
+/-- The arm before /repo commit c18109e agreed with the BigUint arm only away from width 64,
+    operand 0 … -/
+theorem U64.negOld_eq_big (a : V4) (w : Nat) (h64 : w ≤ 64) (ha : a.wf) (hwa : a.width = w)
+    (hok : w < 64 ∨ a.payload ≠ 0 ∨ a.mask ≠ 0) : U64.negOld a w = some (Big.neg a w) := by
+  have hp : a.payload < 2 ^ w := by rw [← hwa]; exact ha.1
+  unfold U64.negOld Big.neg
   by_cases hm : a.mask ≠ 0
   · rw [if_pos hm, if_pos hm, U64.newX_eq_big h64]
   · rw [if_neg hm, if_neg hm]
@@ -109,6 +120,7 @@ theorem U64.neg_eq_big (a : V4) (w : Nat) (h64 : w ≤ 64) (ha : a.wf) (hwa : a.
     rw [if_pos hlt]
     rfl
 
-theorem U64.neg_overflow : U64.neg ⟨64, 0, 0, false⟩ 64 = none := by decide
+/-- … and panicked there. -/
+theorem U64.negOld_overflow : U64.negOld ⟨64, 0, 0, false⟩ 64 = none := by decide
 
 end VerylModel.Bits
